@@ -61,6 +61,8 @@ def gen_opts(rng, spec):
     r = rng.random()
     if r < 0.45:
         o['at_level'] = rng.choice([-1, 0, 1, 2, 3, 10])
+        if rng.random() < 0.25:
+            o['all'] = True
     elif r < 0.55:
         o['all'] = True
     elif r < 0.8:
@@ -83,6 +85,15 @@ def gen_opts(rng, spec):
         if rng.random() < 0.2:
             pats = ['!' + pats[0]]
         o['layer'] = pats
+    # the same options in another order on the command line, or partly in
+    # the script's defaults (which are read before the command line)
+    if rng.random() < 0.5:
+        o['_order'] = rng.randrange(1 << 20)
+    if rng.random() < 0.3:
+        ks = [k for k in ('at_level', 'all', 'only_level', 'unit',
+                          'non_unit') if k in o]
+        if ks:
+            o['_defaults'] = rng.sample(ks, rng.randint(1, len(ks)))
     return o
 
 
